@@ -1,0 +1,9 @@
+//go:build !verif
+
+// Copyright 2025 NVIDIA CORPORATION
+// SPDX-License-Identifier: Apache-2.0
+
+package group_mutex
+
+// simYield is a no-op outside the simulation build (build tag verif).
+func simYield(string, string) {}
